@@ -51,6 +51,14 @@ pub fn sig_tt(v: u32) -> u64 {
     if i == w { bits |= 256; }
     if TagType::from(i) == t { bits |= 512; }
     if TagTypeId::from(t) == i { bits |= 1024; }
+    // a manually constructed Custom(v) - also for the specified numbers - still compares numerically
+    let c = TagType::Custom(v);
+    if c == i { bits |= 2048; }
+    if i == c { bits |= 4096; }
+    if c == v { bits |= 8192; }
+    if v == c { bits |= 16384; }
+    if u32::from(c) == v { bits |= 32768; }
+    if TagTypeId::from(c) == i { bits |= 65536; }
     let back: u32 = t.into();
     let via: u32 = TagTypeId::from(TagType::from(i)).into();
     (tt_index(t) << 48) ^ (bits << 32) ^ (back as u64) ^ ((via as u64) << 7)
@@ -75,6 +83,10 @@ pub fn sig_mat(v: u32) -> u64 {
     if t == id { bits |= 2; }
     if MemoryAreaTypeId::from(w) == t { bits |= 4; }
     if MemoryAreaType::from(MemoryAreaTypeId::from(w)) == id { bits |= 8; }
+    let c = MemoryAreaType::Custom(v);
+    if id == c { bits |= 16; }
+    if c == id { bits |= 32; }
+    if u32::from(MemoryAreaTypeId::from(c)) == v { bits |= 64; }
     let back: u32 = MemoryAreaTypeId::from(t).into();
     (idx << 48) ^ (bits << 32) ^ (back as u64)
 }
